@@ -1,2 +1,3 @@
 SPECIFICATION TraceSpec
 POSTCONDITION Report
+CONSTANT ReadMax = 0
